@@ -39,6 +39,14 @@ SeedFeat ==    \* rules selected by feature values; a rule that changes a featur
                                     R(0, <<2, 3>>, <<SetF(1, w), NoItem>>, NoCon, 0) >>],
        [kind |-> "sub", rules |-> << R(1, <<2, 1>>, <<I("glyph", 3)>>, Feat(1, 1), 0), R(0, <<4>>, <<SetF(2, 3)>>, Feat(2, 0), 0) >>],
        [kind |-> "pos", rules |-> << R(0, <<3>>, <<[NoItem EXCEPT !.adv = 250]>>, Feat(2, 2), 0), R(0, <<1>>, <<[NoItem EXCEPT !.shift = 40]>>, Feat(1, 0), 0) >>] >> : v \in {0, 1}, w \in {0, 1, 3} }
+SeedLoop ==    \* rules that hand the cursor back (return -1) all along a long text: the loop counter of the pass counts
+               \* consecutive steps behind the high-water mark, not the steps of the whole pass
+  { << [kind |-> k, rules |-> << R(0, <<1, 1>>, <<[NoItem EXCEPT !.user = 7], NoItem>>, NoCon, -1) >>] >> : k \in {"sub", "pos"} }
+  \cup
+  { << [kind |-> "sub", rules |-> << R(0, <<1, 2>>, <<I("subs", 2), NoItem>>, NoCon, -1), R(0, <<2, 2, 1>>, <<NoItem, I("glyph", 3), NoItem>>, NoCon, -1) >>],
+       [kind |-> "pos", rules |-> << R(1, <<1, 2, 2>>, <<[NoItem EXCEPT !.shift = 40], NoItem>>, NoCon, -1) >>] >> }
+LoopTexts == UNION {[1..n -> {1, 2}] : n \in {9, 10, 11}}
+SpecSeededLoop == InitSeededTexts(SeedLoop, LoopTexts) /\ [][Next]_vars
 Seeds == SeedMarks \cup SeedChains \cup SeedRecycle \cup SeedOrder
 SpecSeeded == InitSeeded(Seeds) /\ [][Next]_vars
 SpecSeededF == InitSeeded(SeedFeat) /\ [][Next]_vars
